@@ -415,6 +415,10 @@ mod if_alloc {
             }
         }
 
+        #[cfg(kani)]
+        #[path = "/verif/kani/oneshot_shared.rs"]
+        mod kani_verif_shared;
+
         // Export parking_lot based shared channels in std mode
         #[cfg(feature = "std")]
         mod if_std {
